@@ -241,51 +241,51 @@ func unitC15(x *ctx) {
 		do(LoadCase{Files: map[string]string{"cfg.yaml": base("/nonexistent/abs.env")}, Main: "cfg.yaml", Note: "envfile absolute-missing"}, true, true)
 	case "c15-yamlonly": // anchors, merge keys, tabs, duplicate keys, documents that are not maps, mixed-format imports
 		texts := map[string]string{
-			"anchor-alias":      "x: &a\n  command: echo 1\ntasks:\n  t1: *a\n  t2: *a\n",
-			"merge-key":         "base: &b\n  command: echo 1\ntasks:\n  t1:\n    <<: *b\n    dir: .\n",
-			"merge-key-list":    "tasks:\n  t1:\n    <<: [1, 2]\n",
-			"alias-cycle":       "tasks: &t\n  t1: *t\n",
-			"tab-indent":        "tasks:\n\tt1:\n\t\tcommand: echo 1\n",
-			"duplicate-key":     "tasks:\n  t1:\n    command: echo 1\n  t1:\n    command: echo 2\n",
-			"duplicate-top":     "tasks:\n  t1:\n    command: echo 1\ntasks:\n  t2:\n    command: echo 2\n",
-			"top-scalar":        "just a string\n",
-			"top-list":          "- a\n- b\n",
-			"top-null":          "~\n",
-			"empty":             "",
-			"only-comment":      "# nothing\n",
-			"two-documents":     "tasks:\n  t1:\n    command: echo 1\n---\ntasks:\n  t2:\n    command: echo 2\n",
-			"int-keys":          "tasks:\n  1:\n    command: echo 1\n  2.5:\n    command: echo 2\n",
-			"bool-key":          "tasks:\n  true:\n    command: echo 1\n",
-			"null-key":          "tasks:\n  ~:\n    command: echo 1\n",
-			"nested-map-key":    "tasks:\n  ? {a: b}\n  : {command: echo 1}\n",
-			"binary-tag":        "tasks:\n  t1:\n    command: !!binary aGVsbG8=\n",
-			"huge-int":          "tasks:\n  t1:\n    command: echo 1\n    timeout: 99999999999999999999999\n",
-			"neg-timeout":       "tasks:\n  t1:\n    command: echo 1\n    timeout: -5s\n",
-			"bad-duration":      "tasks:\n  t1:\n    command: echo 1\n    timeout: soon\n",
-			"variations-scalar": "tasks:\n  t1:\n    command: echo 1\n    variations: [1, 2]\n",
-			"import-self":       "import: [cfg.yaml]\ntasks:\n  t1:\n    command: echo 1\n",
-			"import-string":     "import: inc/a.yaml\n",
-			"import-int-list":   "import: [1, 2]\n",
-			"import-null-list":  "import: [~]\n",
-			"import-map":        "import: {a: b}\n",
-			"import-dir":        "import: [inc]\n",
-			"import-missing":    "import: [nope.yaml]\n",
-			"import-json":       "import: [inc/j.json]\ntasks:\n  t1:\n    command: echo 1\n    env: {A: b}\n",
-			"import-toml":       "import: [inc/t.toml]\ntasks:\n  t1:\n    command: echo 1\n    env: {A: b}\n",
-			"import-unsupported": "import: [inc/x.txt]\n",
-			"watcher-bad-glob":  "tasks:\n  t:\n    command: echo\nwatchers:\n  w:\n    watch: ['[']\n    task: t\n",
-			"watcher-no-task":   "watchers:\n  w:\n    watch: ['*']\n",
-			"stage-dir-pipeline": "tasks:\n  t:\n    command: echo\npipelines:\n  p:\n    - pipeline: q\n      dir: /tmp\n  q:\n    - task: t\n",
-			"context-null":      "contexts:\n  c: ~\ntasks:\n  t:\n    command: echo\n    context: c\n",
-			"pipeline-null":     "pipelines:\n  p: ~\n",
-			"pipeline-stage-null": "pipelines:\n  p:\n    - ~\n",
-			"task-null":         "tasks:\n  t: ~\n",
-			"pipeline-self":     "tasks:\n  t:\n    command: echo\npipelines:\n  a:\n    - task: t\n    - pipeline: a\n      name: again\n",
-			"pipeline-loop":     "tasks:\n  t:\n    command: echo\npipelines:\n  a:\n    - pipeline: b\n  b:\n    - pipeline: a\n",
+			"anchor-alias":                 "x: &a\n  command: echo 1\ntasks:\n  t1: *a\n  t2: *a\n",
+			"merge-key":                    "base: &b\n  command: echo 1\ntasks:\n  t1:\n    <<: *b\n    dir: .\n",
+			"merge-key-list":               "tasks:\n  t1:\n    <<: [1, 2]\n",
+			"alias-cycle":                  "tasks: &t\n  t1: *t\n",
+			"tab-indent":                   "tasks:\n\tt1:\n\t\tcommand: echo 1\n",
+			"duplicate-key":                "tasks:\n  t1:\n    command: echo 1\n  t1:\n    command: echo 2\n",
+			"duplicate-top":                "tasks:\n  t1:\n    command: echo 1\ntasks:\n  t2:\n    command: echo 2\n",
+			"top-scalar":                   "just a string\n",
+			"top-list":                     "- a\n- b\n",
+			"top-null":                     "~\n",
+			"empty":                        "",
+			"only-comment":                 "# nothing\n",
+			"two-documents":                "tasks:\n  t1:\n    command: echo 1\n---\ntasks:\n  t2:\n    command: echo 2\n",
+			"int-keys":                     "tasks:\n  1:\n    command: echo 1\n  2.5:\n    command: echo 2\n",
+			"bool-key":                     "tasks:\n  true:\n    command: echo 1\n",
+			"null-key":                     "tasks:\n  ~:\n    command: echo 1\n",
+			"nested-map-key":               "tasks:\n  ? {a: b}\n  : {command: echo 1}\n",
+			"binary-tag":                   "tasks:\n  t1:\n    command: !!binary aGVsbG8=\n",
+			"huge-int":                     "tasks:\n  t1:\n    command: echo 1\n    timeout: 99999999999999999999999\n",
+			"neg-timeout":                  "tasks:\n  t1:\n    command: echo 1\n    timeout: -5s\n",
+			"bad-duration":                 "tasks:\n  t1:\n    command: echo 1\n    timeout: soon\n",
+			"variations-scalar":            "tasks:\n  t1:\n    command: echo 1\n    variations: [1, 2]\n",
+			"import-self":                  "import: [cfg.yaml]\ntasks:\n  t1:\n    command: echo 1\n",
+			"import-string":                "import: inc/a.yaml\n",
+			"import-int-list":              "import: [1, 2]\n",
+			"import-null-list":             "import: [~]\n",
+			"import-map":                   "import: {a: b}\n",
+			"import-dir":                   "import: [inc]\n",
+			"import-missing":               "import: [nope.yaml]\n",
+			"import-json":                  "import: [inc/j.json]\ntasks:\n  t1:\n    command: echo 1\n    env: {A: b}\n",
+			"import-toml":                  "import: [inc/t.toml]\ntasks:\n  t1:\n    command: echo 1\n    env: {A: b}\n",
+			"import-unsupported":           "import: [inc/x.txt]\n",
+			"watcher-bad-glob":             "tasks:\n  t:\n    command: echo\nwatchers:\n  w:\n    watch: ['[']\n    task: t\n",
+			"watcher-no-task":              "watchers:\n  w:\n    watch: ['*']\n",
+			"stage-dir-pipeline":           "tasks:\n  t:\n    command: echo\npipelines:\n  p:\n    - pipeline: q\n      dir: /tmp\n  q:\n    - task: t\n",
+			"context-null":                 "contexts:\n  c: ~\ntasks:\n  t:\n    command: echo\n    context: c\n",
+			"pipeline-null":                "pipelines:\n  p: ~\n",
+			"pipeline-stage-null":          "pipelines:\n  p:\n    - ~\n",
+			"task-null":                    "tasks:\n  t: ~\n",
+			"pipeline-self":                "tasks:\n  t:\n    command: echo\npipelines:\n  a:\n    - task: t\n    - pipeline: a\n      name: again\n",
+			"pipeline-loop":                "tasks:\n  t:\n    command: echo\npipelines:\n  a:\n    - pipeline: b\n  b:\n    - pipeline: a\n",
 			"pipeline-loop-behind-entries": "tasks:\n  t:\n    command: echo\npipelines:\n  a:\n    - pipeline: b\n  b:\n    - pipeline: a\n  e00:\n    - pipeline: a\n  e01:\n    - pipeline: a\n  e02:\n    - pipeline: a\n  e03:\n    - pipeline: a\n  e04:\n    - pipeline: a\n  e05:\n    - pipeline: a\n  e06:\n    - pipeline: a\n  e07:\n    - pipeline: a\n  e08:\n    - pipeline: a\n  e09:\n    - pipeline: a\n  e10:\n    - pipeline: a\n  e11:\n    - pipeline: a\n",
-			"pipeline-deep-nesting": "tasks:\n  t:\n    command: echo\npipelines:\n  p1:\n    - pipeline: p2\n  p2:\n    - pipeline: p3\n  p3:\n    - pipeline: p4\n  p4:\n    - pipeline: p5\n  p5:\n    - task: t\n",
-			"pipeline-diamond-nesting": "tasks:\n  t:\n    command: echo\npipelines:\n  top:\n    - pipeline: l\n    - pipeline: r\n  l:\n    - pipeline: leaf\n  r:\n    - pipeline: leaf\n  leaf:\n    - task: t\n",
-			"watcher-null":      "watchers:\n  w: ~\n",
+			"pipeline-deep-nesting":        "tasks:\n  t:\n    command: echo\npipelines:\n  p1:\n    - pipeline: p2\n  p2:\n    - pipeline: p3\n  p3:\n    - pipeline: p4\n  p4:\n    - pipeline: p5\n  p5:\n    - task: t\n",
+			"pipeline-diamond-nesting":     "tasks:\n  t:\n    command: echo\npipelines:\n  top:\n    - pipeline: l\n    - pipeline: r\n  l:\n    - pipeline: leaf\n  r:\n    - pipeline: leaf\n  leaf:\n    - task: t\n",
+			"watcher-null":                 "watchers:\n  w: ~\n",
 		}
 		extra := map[string]string{
 			"inc/j.json": "{\"tasks\": {\"j\": {\"command\": \"echo j\", \"env\": {\"A\": \"b\"}}}}",
